@@ -91,6 +91,18 @@ def check(run, prog, tier):
                 self.result = term
         news = [_H(b.recv) for b in builds if b.recv is not None and b.recv[0] == "new" and b.recv[1] == "header.SOMEIPHeader"]
 
+        # every requested event gets its message: an event the loop drew from `events` but built no notification for was
+        # skipped on some condition (a value that is empty / falsy / missing is still the event's current value)
+        drawn = {s_[3] for t_ in [c for c, _, _, _ in p.conds] + [x for e in p.events for x in ((e.args or ()) + ((e.recv,) if e.recv else ()))
+                                                               if isinstance(x, tuple)]
+                 for s_ in subterms(t_) if s_[0] == "elem" and unwrap_iter(s_[1]) == events}
+        built = {s_[3] for n_ in news for s_ in subterms(dict(n_.result[2]).get("method_id", const(0)))
+                 if s_[0] == "elem" and unwrap_iter(s_[1]) == events}
+        if p.returns() or p.outcome[0] == "fall":
+            for i_ in sorted(drawn - built):
+                why_ = " and ".join(("" if v else "not ") + show(c)[:70] for c, v, _, _ in p.conds if contains(c, lambda s_: s_[0] == "elem" and s_[3] == i_))
+                probs.setdefault("V1:every-requested-event-notified", f"a requested event gets no notification when {why_ or '?'}: the round does not carry "
+                                 "the current value of every requested event")
         if not news:
             if sends and not p.truncated:
                 probs.setdefault("V1:nothing-to-send", "a datagram is sent although no event was requested")
@@ -143,7 +155,7 @@ def check(run, prog, tier):
                         probs.setdefault("V1:all-events-in-the-datagram", "a built notification is not part of the transmitted buffer")
     run.floor("V1-paths", checked, 2)
     for key in ("V1:method-id", "V1:service_id", "V1:client_id", "V1:message_type", "V1:interface_version", "V1:payload", "V1:session_id",
-                "V1:extra-fields", "V1:one-datagram-per-destination", "V1:destination", "V1:all-events-in-the-datagram", "V1:nothing-to-send"):
+                "V1:extra-fields", "V1:every-requested-event-notified", "V1:one-datagram-per-destination", "V1:destination", "V1:all-events-in-the-datagram", "V1:nothing-to-send"):
         run.ob("V1", f"{ns.qual}:{key[3:]}", key not in probs, loc(ns), probs.get(key, "holds on every enumerated path (0, 1 and 2 events)"))
     it_ok = any(s_[0] == "elem" and unwrap_iter(s_[1]) == events for p in paths for e in p.events if e.kind == "call" and e.result is not None
                 for s_ in subterms(e.result))
